@@ -73,16 +73,14 @@ func newC17RecCons(w, h uint32) *c17RecCons {
 	return c
 }
 func (c *c17RecCons) Dimensions(console.Dimension) (uint32, uint32) { return c.w, c.h }
-func (c *c17RecCons) DefaultColors() (uint8, uint8)                   { return 7, 0 }
+func (c *c17RecCons) DefaultColors() (uint8, uint8)                 { return 7, 0 }
 func (c *c17RecCons) Fill(x, y, w, h uint32, fg, bg uint8) {
-	for yy := uint64(y); yy < uint64(y)+uint64(h); yy++ {
-		for xx := uint64(x); xx < uint64(x)+uint64(w); xx++ {
-			if xx >= 1 && yy >= 1 && xx <= uint64(c.w) && yy <= uint64(c.h) {
+	// the cells of the rectangle [x, x+w) x [y, y+h) that exist
+	for yy := uint64(1); yy <= uint64(c.h); yy++ {
+		for xx := uint64(1); xx <= uint64(c.w); xx++ {
+			if xx >= uint64(x) && xx < uint64(x)+uint64(w) && yy >= uint64(y) && yy < uint64(y)+uint64(h) {
 				c.cells[(yy-1)*uint64(c.w)+xx-1] = c17Code(' ', fg, bg)
 			}
-		}
-		if yy > uint64(c.h) {
-			break
 		}
 	}
 }
@@ -128,6 +126,12 @@ func (p *c17Proxy) SetPaletteColor(i uint8, c color.RGBA) {
 func (p *c17Proxy) Fill(x, y, w, h uint32, fg, bg uint8) {
 	p.cc++
 	p.calls = append(p.calls, []int{2, c17SatU32(x), c17SatU32(y), c17SatU32(w), c17SatU32(h), int(fg), int(bg)})
+	if x > 1<<12 || y > 1<<12 || w > 1<<12 || h > 1<<12 {
+		// Logged (the monitor rejects a call outside the grid) but not forwarded: the clipping of the shipped
+		// consoles wraps for such arguments and then loops for minutes (C19); the terminal never makes
+		// such a call on the unchanged tree.
+		return
+	}
 	p.in.Fill(x, y, w, h, fg, bg)
 }
 func (p *c17Proxy) Scroll(dir console.ScrollDir, lines uint32) {
